@@ -103,9 +103,10 @@ def u4 (n : Nat) : Bytes :=
   [0x5c, 0x75, hexDig (n / 4096 % 16), hexDig (n / 256 % 16), hexDig (n / 16 % 16), hexDig (n % 16)]
 
 def hexVal (b : UInt8) : Option Nat :=
-  if 0x30 ≤ b && b ≤ 0x39 then some (b.toNat - 0x30)
-  else if 0x61 ≤ b && b ≤ 0x66 then some (b.toNat - 0x57)
-  else if 0x41 ≤ b && b ≤ 0x46 then some (b.toNat - 0x37)
+  let n := b.toNat
+  if 0x30 ≤ n ∧ n ≤ 0x39 then some (n - 0x30)
+  else if 0x61 ≤ n ∧ n ≤ 0x66 then some (n - 0x57)
+  else if 0x41 ≤ n ∧ n ≤ 0x46 then some (n - 0x37)
   else none
 
 def hex4 (a b c d : UInt8) : Option Nat :=
@@ -391,16 +392,20 @@ def consC (c : Char) (esc : Bool) : Except Err (List Char × Bool × Bytes) → 
   | .ok (cs, e, r) => .ok (c :: cs, esc || e, r)
   | .error e => .error e
 
-/-- string body after the opening quote: `(scalars, "saw a backslash", rest after closing quote)` -/
+def isContN (n : Nat) : Bool := 0x80 ≤ n && n < 0xC0
+
+/-- string body after the opening quote: `(scalars, "saw a backslash", rest after closing quote)`.
+Byte tests are on `toNat` values. -/
 def pStr : Bytes → Except Err (List Char × Bool × Bytes)
   | [] => .error .eof
   | b :: r =>
-    if b == 0x22 then .ok ([], false, r)
-    else if b == 0x5c then
+    let n := b.toNat
+    if n = 0x22 then .ok ([], false, r)
+    else if n = 0x5c then
       match r with
       | [] => .error .eof
       | e :: r1 =>
-        if e == 0x75 then
+        if e.toNat = 0x75 then
           match r1 with
           | h1 :: h2 :: h3 :: h4 :: r2 =>
             match hex4 h1 h2 h3 h4 with
@@ -409,7 +414,7 @@ def pStr : Bytes → Except Err (List Char × Bool × Bytes)
               if 0xD800 ≤ n ∧ n < 0xDC00 then
                 match r2 with
                 | b5 :: b6 :: g1 :: g2 :: g3 :: g4 :: r3 =>
-                  if b5 == 0x5c && b6 == 0x75 then
+                  if b5.toNat = 0x5c ∧ b6.toNat = 0x75 then
                     match hex4 g1 g2 g3 g4 with
                     | none => .error (.bad "hex")
                     | some m =>
@@ -425,29 +430,29 @@ def pStr : Bytes → Except Err (List Char × Bool × Bytes)
           match simpleEsc e with
           | some c => consC c true (pStr r1)
           | none => .error (.bad "escape")
-    else if b < 0x20 then .error (.bad "control character")
-    else if b < 0x80 then consC (Char.ofNat b.toNat) false (pStr r)
-    else if b < 0xC2 then .error (.bad "utf8")
-    else if b < 0xE0 then
+    else if n < 0x20 then .error (.bad "control character")
+    else if n < 0x80 then consC (Char.ofNat n) false (pStr r)
+    else if n < 0xC2 then .error (.bad "utf8")
+    else if n < 0xE0 then
       match r with
       | b1 :: r1 =>
-        if isCont b1 then consC (Char.ofNat ((b.toNat - 0xC0) * 64 + (b1.toNat - 0x80))) false (pStr r1)
+        if isContN b1.toNat then consC (Char.ofNat ((n - 0xC0) * 64 + (b1.toNat - 0x80))) false (pStr r1)
         else .error (.bad "utf8")
       | _ => .error (.bad "utf8")
-    else if b < 0xF0 then
+    else if n < 0xF0 then
       match r with
       | b1 :: b2 :: r2 =>
-        let n := (b.toNat - 0xE0) * 4096 + (b1.toNat - 0x80) * 64 + (b2.toNat - 0x80)
-        if isCont b1 && isCont b2 && 0x800 ≤ n && !(0xD800 ≤ n && n < 0xE000) then
-          consC (Char.ofNat n) false (pStr r2)
+        let m := (n - 0xE0) * 4096 + (b1.toNat - 0x80) * 64 + (b2.toNat - 0x80)
+        if isContN b1.toNat && isContN b2.toNat && decide (0x800 ≤ m) && !(decide (0xD800 ≤ m) && decide (m < 0xE000)) then
+          consC (Char.ofNat m) false (pStr r2)
         else .error (.bad "utf8")
       | _ => .error (.bad "utf8")
-    else if b < 0xF5 then
+    else if n < 0xF5 then
       match r with
       | b1 :: b2 :: b3 :: r3 =>
-        let n := (b.toNat - 0xF0) * 262144 + (b1.toNat - 0x80) * 4096 + (b2.toNat - 0x80) * 64 + (b3.toNat - 0x80)
-        if isCont b1 && isCont b2 && isCont b3 && 0x10000 ≤ n && n < 0x110000 then
-          consC (Char.ofNat n) false (pStr r3)
+        let m := (n - 0xF0) * 262144 + (b1.toNat - 0x80) * 4096 + (b2.toNat - 0x80) * 64 + (b3.toNat - 0x80)
+        if isContN b1.toNat && isContN b2.toNat && isContN b3.toNat && decide (0x10000 ≤ m) && decide (m < 0x110000) then
+          consC (Char.ofNat m) false (pStr r3)
         else .error (.bad "utf8")
       | _ => .error (.bad "utf8")
     else .error (.bad "utf8")
